@@ -258,6 +258,12 @@ def run(case, rec):
         # 1-d and 0-d forms agree with the 2-d form
         g1 = call(rec, est.predict, ((qe * tsc + toff).ravel(), (qn * tsc - toff).ravel()))
         rec.check(not raised(g1) and np.asarray(g1).shape == (qe.size,) and np.array_equal(np.asarray(g1), got.ravel()), "1-D query differs from the 2-D query")
+        # the same 2-D query stored column-major (Fortran copies; transposed views of an "ij" mesh): round 8, seed C15-16
+        qx, qy = qe * tsc + toff, qn * tsc - toff
+        for nm_, (a_, b_) in (("Fortran-ordered", (np.asfortranarray(qx), np.asfortranarray(qy))), ("transposed-view", (np.ascontiguousarray(qx.T).T, np.ascontiguousarray(qy.T).T)),
+                              ("mixed-layout", (qx, np.asfortranarray(qy)))):
+            gF = call(rec, est.predict, (a_, b_))
+            rec.check(not raised(gF) and np.asarray(gF).shape == qe.shape and np.array_equal(np.asarray(gF), got), "%s 2-D query differs from the C-ordered 2-D query" % nm_)
         for idx in ((0, 0), (7, 3), (18, 10)):
             g0 = call(rec, est.predict, (np.array(qe[idx] * tsc + toff), np.array(qn[idx] * tsc - toff)))
             rec.check(not raised(g0) and np.asarray(g0).shape == () and float(g0) == float(got[idx]), "0-d query %s: %r vs %r" % (idx, g0, got[idx]))
@@ -266,6 +272,8 @@ def run(case, rec):
     if kind == "median_distance":
         k, proj = case["k"], case["proj"]
         rs = (lambda a: a.reshape(2, -1)) if case["shape"] == "2d" else (lambda a: a)
+        if case["shape"] == "2d" and (k + sum(case["sub"])) % 2:
+            rs = lambda a: np.asfortranarray(a.reshape(2, -1))     # same elements in C reading order, column-major memory (seed C15-16)
         kw = dict(k_nearest=k)
         if proj:
             kw["projection"] = _projfn(proj)
@@ -321,6 +329,8 @@ def run(case, rec):
                 want[idx] = v <= t4
             if form.startswith("array"):
                 a, b = (qe, qn) if form == "array2d" else (qe.ravel(), qn.ravel())
+                if form == "array2d" and len(thresholds) % 2:
+                    a, b = np.asfortranarray(qe), np.ascontiguousarray(qn.T).T
                 if form == "array_scattered":
                     # the query points in an order that is neither sorted nor a raveled mesh (seed C15-13: results put back with the
                     # forward instead of the inverse permutation)
